@@ -81,15 +81,18 @@ def _alarm(signum, frame):
 
 
 def _in_repo(tb):
-    """True when the innermost frame of the traceback is falcon source."""
-    last = None
+    """True when the innermost frame of the traceback that belongs to falcon or to the harness is falcon source:
+    frames of the standard library / third-party packages below it (a codec, json, re raising on behalf of their
+    caller) are attributed to whoever called them."""
+    owner = None
     while tb is not None:
-        last = tb
+        fn = os.path.realpath(tb.tb_frame.f_code.co_filename)
+        if fn.startswith(boot.REPO + os.sep):
+            owner = 'repo'
+        elif fn.startswith(ROOT + os.sep) and (os.sep + '.deps' + os.sep) not in fn:
+            owner = 'harness'
         tb = tb.tb_next
-    if last is None:
-        return False
-    fn = os.path.realpath(last.tb_frame.f_code.co_filename)
-    return fn.startswith(boot.REPO + os.sep)
+    return owner == 'repo'
 
 
 def _repo_frames(tb):
